@@ -47,8 +47,10 @@ InsertDenotesC == Law(Denotes => o.rc = [r |-> "ok", t |-> U])
 InsertDenotesPy == Law(Denotes => o.rpy = [r |-> "ok", t |-> U])
 (* the C and the Python implementation of getctype produce the same text *)
 InsertAgree == Law(o.c = o.py)
-(* names identify types *)
-NameInjective == OnceT(\A V \in {v \in Universe : IsCType(v)} : Name(V) = o.name => V = T)
+(* names identify types: evaluated once, in the initial state whose T is void *)
+NameInjective == (ph = "grow" /\ T = Void) =>
+                    LET UU == {v \in Universe : IsCType(v)}
+                    IN Cardinality({Name(v) : v \in UU}) = Cardinality(UU)
 GrowsUniverse == T \in Universe
 
 Emit == Law(PrintT(ToString(<<"P", T, x, IF Denotes THEN U ELSE [k |-> "none"], o.c, o.py,
